@@ -440,3 +440,64 @@ package constraint
 //@   modifies c.keys, c.keys[*]
 //@   ensures len(c.keys) == old(len(c.keys)) + 1 && c.keys[old(len(c.keys))] == key
 //@   ensures forall j :: 0 <= j && j < old(len(c.keys)) ==> c.keys[j] == old(c.keys[j])
+
+// ---- C16: "the rules exactly as written": the AST value of a rule is the text /
+// number / flag the rule was written with ----
+//@ func newRuleASTNode(t, v, s)
+//@   props C16
+//@   nopanic
+//@   ensures result.TokenType == t && result.Value == v && result.Source == s && len(result.Items) == 0
+//@ func (Min).ASTNode()
+//@   props C16
+//@   nopanic
+//@   ensures result.TokenType == jschema.TokenTypeNumber && result.Source == jschema.RuleASTNodeSourceManual
+//@   ensures len(result.Value) == len(c.rawValue) && (forall i :: 0 <= i && i < len(c.rawValue) ==> result.Value[i] == c.rawValue[i])
+//@ func (Max).ASTNode()
+//@   props C16
+//@   nopanic
+//@   ensures result.TokenType == jschema.TokenTypeNumber && result.Source == jschema.RuleASTNodeSourceManual
+//@   ensures len(result.Value) == len(c.rawValue) && (forall i :: 0 <= i && i < len(c.rawValue) ==> result.Value[i] == c.rawValue[i])
+//@ func (MinLength).ASTNode()
+//@   props C16
+//@   nopanic
+//@   ensures result.TokenType == jschema.TokenTypeNumber && result.Value == fmtUintS(c.value, 10) && result.Source == jschema.RuleASTNodeSourceManual
+//@ func (MaxLength).ASTNode()
+//@   props C16
+//@   nopanic
+//@   ensures result.TokenType == jschema.TokenTypeNumber && result.Value == fmtUintS(c.value, 10) && result.Source == jschema.RuleASTNodeSourceManual
+//@ func (MinItems).ASTNode()
+//@   props C16
+//@   nopanic
+//@   ensures result.TokenType == jschema.TokenTypeNumber && result.Value == fmtUintS(c.value, 10) && result.Source == jschema.RuleASTNodeSourceManual
+//@ func (MaxItems).ASTNode()
+//@   props C16
+//@   nopanic
+//@   ensures result.TokenType == jschema.TokenTypeNumber && result.Value == fmtUintS(c.value, 10) && result.Source == jschema.RuleASTNodeSourceManual
+//@ func (Precision).ASTNode()
+//@   props C16
+//@   nopanic
+//@   ensures result.TokenType == jschema.TokenTypeNumber && result.Value == fmtUintS(c.value, 10) && result.Source == jschema.RuleASTNodeSourceManual
+//@ func (Optional).ASTNode()
+//@   props C16
+//@   nopanic
+//@   ensures result.TokenType == jschema.TokenTypeBoolean && result.Value == (c.value ? "true" : "false") && result.Source == jschema.RuleASTNodeSourceManual
+//@ func (Nullable).ASTNode()
+//@   props C16
+//@   nopanic
+//@   ensures result.TokenType == jschema.TokenTypeBoolean && result.Value == (c.value ? "true" : "false") && result.Source == jschema.RuleASTNodeSourceManual
+//@ func (ExclusiveMinimum).ASTNode()
+//@   props C16
+//@   nopanic
+//@   ensures result.TokenType == jschema.TokenTypeBoolean && result.Value == (c.exclusive ? "true" : "false") && result.Source == jschema.RuleASTNodeSourceManual
+//@ func (ExclusiveMaximum).ASTNode()
+//@   props C16
+//@   nopanic
+//@   ensures result.TokenType == jschema.TokenTypeBoolean && result.Value == (c.exclusive ? "true" : "false") && result.Source == jschema.RuleASTNodeSourceManual
+//@ func (Const).ASTNode()
+//@   props C16
+//@   nopanic
+//@   ensures result.TokenType == jschema.TokenTypeBoolean && result.Value == (c.apply ? "true" : "false") && result.Source == jschema.RuleASTNodeSourceManual
+//@ func (Regex).ASTNode()
+//@   props C16
+//@   nopanic
+//@   ensures result.TokenType == jschema.TokenTypeString && result.Value == c.expression && result.Source == jschema.RuleASTNodeSourceManual
